@@ -3,7 +3,7 @@ The whole sheet: the lock-step simulation over all rows, the emitted node list (
 node-producing rows, in row order), and facts about the two node lists used to compare the
 index-resolved abstractions of the compiled flow and of the reference flow.
 -/
-import Rpft.Lemmas.CoreNoop3
+import Rpft.Lemmas.CoreMerge
 import Rpft.Lemmas.FlowAbs
 import Rpft.Lemmas.CompileFinalB
 import Rpft.Lemmas.RefFlowClosed
@@ -17,7 +17,8 @@ theorem rel_init (rows : List CRow) (M : Maps) (hM : ∀ j, M.rOf j = none) (hel
     (h : noArgs = RefFlow.noArgsTests) : Rel rows M false 0 (initSt noArgs testTypes) {} := by
   refine ⟨by rw [gOf_zero]; rfl, by rw [gOf_zero]; rfl, fun j c hj => absurd hj (Nat.not_lt_zero j),
     fun j c hj => absurd hj (Nat.not_lt_zero j), fun j _ _ _ => hel j, ?_, ?_, rfl, rfl,
-    ?_, by simp [gOf_zero], ?_, ?_, h, ?_, ?_, ?_, fun j _ => hM j, fun j _ _ _ => hM j, ?_⟩
+    ?_, by simp [gOf_zero], ?_, ?_, h, ?_, ?_, ?_, fun j _ => hM j, fun j _ _ _ => hM j, ?_,
+    ⟨fun p hp => by simp [initSt] at hp, fun i _ hi => absurd hi (Nat.not_lt_zero i)⟩⟩
   · intro j hj; rw [hfr j] at hj; cases hj
   · intro e he; cases he
   · intro p hp; cases hp
@@ -66,8 +67,19 @@ theorem pass1Row_prefix (r : RRow) (st st' : P1) (k : Nat) (h : pass1Row st k r 
            injection h with h; subst h
            exact addEdges_prefix _ st st1 _ h1)
 
-theorem fold_prefix : ∀ (l : List RRow) (k : Nat) (st st' : P1),
-    (l.zipIdx k).foldlM (fun st (p : RRow × Nat) => pass1Row st p.2 p.1) st = .ok st' →
+/-- the fused pass only ever adds out-edges, too -/
+theorem pass1RowF_prefix (rows : List CRow) (c : CRow) (st st' : P1) (k : Nat) (h : pass1RowF rows st k c = .ok st') :
+    st.out.reverse <+: st'.out.reverse := by
+  unfold pass1RowF at h
+  split at h
+  · repeat' split at h
+    all_goals first
+      | (injection h with h; subst h; exact List.prefix_refl _)
+      | cases h
+  · exact pass1Row_prefix _ st st' k h
+
+theorem fold_prefix (rows : List CRow) : ∀ (l : List CRow) (k : Nat) (st st' : P1),
+    (l.zipIdx k).foldlM (fun st (p : CRow × Nat) => pass1RowF rows st p.2 p.1) st = .ok st' →
     st.out.reverse <+: st'.out.reverse := by
   intro l
   induction l with
@@ -78,45 +90,69 @@ theorem fold_prefix : ∀ (l : List RRow) (k : Nat) (st st' : P1),
   | cons c l ih =>
     intro k st st' h
     simp only [List.zipIdx_cons, List.foldlM_cons, bind, Except.bind] at h
-    cases h1 : pass1Row st k c with
+    cases h1 : pass1RowF rows st k c with
     | error err => rw [h1] at h; cases h
     | ok st1 =>
       rw [h1] at h
-      exact (pass1Row_prefix c st st1 k h1).trans (ih (k + 1) st1 st' h)
+      exact (pass1RowF_prefix rows c st st1 k h1).trans (ih (k + 1) st1 st' h)
 
-/-- a row of the fragment: the compiler machine and pass 1 stay related -/
+/-- a row of the fragment: the compiler machine and (fused) pass 1 stay related -/
 theorem row_simN (rows : List CRow) (outF : List OutEdge) (g : Good rows outF) (hsh : noopShape rows outF = true)
     (hFull : ∃ p, outF.foldlM (schedStep rows) [] = some p) (M : Maps) (k : Nat) (c : CRow)
     (hc : rows[k]? = some c) (hf : rowOk c = true) (s : Compile.St) (stT stT' : P1) (h : RelN rows M k s stT)
-    (hst : pass1Row stT k (toRRow c) = .ok stT') (hpre : stT'.out.reverse <+: outF) :
+    (hst : pass1RowF rows stT k c = .ok stT') (hpre : stT'.out.reverse <+: outF) :
     wp (step (toEvent c)) s (fun _ s' => ∃ M', RelN rows M' (k + 1) s' stT') := by
-  simp only [rowOk, Bool.or_eq_true] at hf
-  rcases hf with ((hf | hf) | hf) | hf
-  · exact node_row_simN rows outF g hsh hFull M k c hc hf s stT stT' h hst hpre
-  · exact exit_row_simN rows outF g hsh hFull M k c hc hf s stT stT' h hst hpre
-  · exact goto_row_simN rows outF g hsh hFull M k c hc hf s stT stT' h hst hpre
-  · exact noop_row_simN rows outF g hFull M k c hc hf s stT stT' h hst hpre
+  cases hm : c.merged && isNamedAct c with
+  | true =>
+    -- a merged row is an action row
+    have hf' : nodeRowOk c = true := by
+      simp only [Bool.and_eq_true] at hm
+      have hsp : specialTypes.contains c.row.type = false := by
+        have := hm.2; unfold isNamedAct at this
+        simp only [Bool.and_eq_true, Bool.not_eq_true'] at this; exact this.1
+      obtain ⟨_, _, _, _, _, _, _, h8, h9, h10, h11, _⟩ := not_special hsp
+      simp only [rowOk, Bool.or_eq_true] at hf
+      rcases hf with ((hf | hf) | hf) | hf
+      · exact hf
+      · simp only [exitRow, Bool.and_eq_true, Bool.or_eq_true, decide_eq_true_eq] at hf
+        rcases hf.1 with h1 | h1
+        · exact absurd h1 h10
+        · exact absurd h1 h11
+      · simp only [gotoRow, Bool.and_eq_true, decide_eq_true_eq] at hf
+        exact absurd hf.1 h9
+      · simp only [noopRow, isNoop, Bool.and_eq_true, decide_eq_true_eq] at hf
+        exact absurd hf.1.1 h8
+    exact merge_row_simN rows outF g M k c hc hf' hm s stT stT' h hst
+  | false =>
+    have hst' : pass1Row stT k (toRRow c) = .ok stT' := by
+      unfold pass1RowF at hst; rw [hm] at hst; simpa using hst
+    simp only [rowOk, Bool.or_eq_true] at hf
+    rcases hf with ((hf | hf) | hf) | hf
+    · exact node_row_simN rows outF g hsh hFull M k c hc hf hm s stT stT' h hst' hpre
+    · exact exit_row_simN rows outF g hsh hFull M k c hc hf s stT stT' h hst' hpre
+    · exact goto_row_simN rows outF g hsh hFull M k c hc hf s stT stT' h hst' hpre
+    · exact noop_row_simN rows outF g hFull M k c hc hf s stT stT' h hst' hpre
 
 theorem rows_simN (rows : List CRow) (outF : List OutEdge) (g : Good rows outF) (hsh : noopShape rows outF = true)
     (hFull : ∃ p, outF.foldlM (schedStep rows) [] = some p) : ∀ (l : List CRow) (k : Nat),
     (∀ (i : Nat) (c : CRow), l[i]? = some c → rows[k + i]? = some c) → (∀ c ∈ l, rowOk c = true) →
     ∀ (M : Maps) (s : Compile.St) (st st' : P1), RelN rows M k s st →
-      ((l.map toRRow).zipIdx k).foldlM (fun st (p : RRow × Nat) => pass1Row st p.2 p.1) st = .ok st' →
+      (l.zipIdx k).foldlM (fun st (p : CRow × Nat) => pass1RowF rows st p.2 p.1) st = .ok st' →
       st'.out.reverse <+: outF →
       wp (steps (l.map toEvent)) s (fun _ s' => ∃ M', RelN rows M' (k + l.length) s' st') := by
   intro l
   induction l with
   | nil =>
     intro k _ _ M s st st' h hst _
-    simp only [List.map_nil, List.zipIdx_nil, List.foldlM_nil, pure, Except.pure, Except.ok.injEq] at hst
+    simp only [List.zipIdx_nil, List.foldlM_nil, pure, Except.pure, Except.ok.injEq] at hst
     subst hst
     simp only [List.map_nil]
     unfold steps; wp_simp
     exact ⟨M, by simpa using h⟩
   | cons c l ih =>
     intro k hrows hfr M s st st' h hst hpre
-    simp only [List.map_cons, List.zipIdx_cons, List.foldlM_cons, bind, Except.bind] at hst
-    cases h1 : pass1Row st k (toRRow c) with
+    simp only [List.zipIdx_cons, List.foldlM_cons, bind, Except.bind] at hst
+    cases h1 : pass1RowF rows st k c with
     | error err => rw [h1] at hst; cases hst
     | ok st1 =>
       rw [h1] at hst
@@ -125,7 +161,7 @@ theorem rows_simN (rows : List CRow) (outF : List OutEdge) (g : Good rows outF) 
       unfold steps
       wp_simp
       have hck : rows[k]? = some c := by have := hrows 0 c (by simp); simpa using this
-      have hpre1 : st1.out.reverse <+: outF := (fold_prefix _ (k + 1) st1 st' hst).trans hpre
+      have hpre1 : st1.out.reverse <+: outF := (fold_prefix rows _ (k + 1) st1 st' hst).trans hpre
       refine wp_mono (row_simN rows outF g hsh hFull M k c hck (hfr c (by simp)) s st st1 h h1 hpre1) ?_
       intro _ s1 ⟨M1, r1⟩
       have := ih (k + 1) (fun i c' hi => by
@@ -255,6 +291,14 @@ theorem mkNode_plain (k : Nat) (r : RRow) (es : List OutEdge) (hk : r.kind = .ac
 theorem absNode_plain_ref (lvl : ObsLevel) (r : Flow) (k : Nat) (act : Option Str) (d : Option Id) :
     absNode lvl r (plainRef k act d) = { acts := act.toList, ask := none, dests := [destIdx r d] } := by
   cases act <;> simp [absNode, plainRef]
+
+theorem absNode_plain_cmp' (lvl : ObsLevel) (f : Flow) (n : NodeM) (l : List Str) (hr : n.router = none)
+    (ha : n.actions.map (·.2) = l) :
+    absNode lvl f (renderNode n) =
+      { acts := l, ask := none, dests := [destIdx f (renderDest n.dexitDest)] } := by
+  simp only [absNode, renderNode, hr, Option.map_none, List.map_map, List.head?_cons, Option.bind_some]
+  rw [← ha]
+  simp [Function.comp_def]
 
 theorem absNode_plain_cmp (lvl : ObsLevel) (f : Flow) (n : NodeM) (act : Option Str) (hr : n.router = none)
     (ha : n.actions.map (·.2) = act.toList) :
